@@ -277,7 +277,7 @@ def get_key(repo: Repo, chk: Check) -> None:
         okroot = ("R", True) in atoms or ("R is not None", True) in atoms or ("R is None", False) in atoms
         chk.ob("O2", site, okroot, "only when the root key is loaded")
         # the root envelope is what gets stored for this L0 (plain store: it replaces a non-covering entry)
-        st = [e for e in ps.stores() if (lookup_chain(e.target) or ("", []))[1] == ["root_key_id", "target_sd", "l0"] and (lookup_chain(e.target) or ("", []))[0] == "self._seed_keys"]
+        st = [e for e in ps.stores() if (lookup_chain(ps.owner.renamed(e.target)) or ("", []))[1] == ["root_key_id", "target_sd", "l0"] and (lookup_chain(ps.owner.renamed(e.target)) or ("", []))[0] == "self._seed_keys"]
         oks = len(st) == 1 and ps.key(st[0].tree) == ps.key(ctor)
         chk.ob("O2", Site.of(f, st[0].node if st else ps.exit_node, None if st else "store of the root envelope"), oks, "the covering root-key envelope replaces whatever was stored for this L0" if oks else "the root-key envelope is not stored with a plain assignment under [root key id][SD][l0] (setdefault keeps a stored non-covering envelope)")
     chk.ob("O2", Site.of(f, construct="root key return sites"), root_returns >= 1, f"{root_returns} root-key envelope return path(s)")
@@ -301,10 +301,10 @@ def store_key(repo: Repo, chk: Check) -> None:
         raise AnalysisError("_store_key: no returning path")
 
     def stored(ps: t.Any) -> t.Optional[bool]:
-        st = [e for e in ps.stores() if (lookup_chain(e.target) or ("", []))[0] == "self._seed_keys"]
+        st = [e for e in ps.stores() if (lookup_chain(ps.owner.renamed(e.target)) or ("", []))[0] == "self._seed_keys"]
         if not st:
             return False
-        if len(st) == 1 and (lookup_chain(st[0].target) or ("", []))[1] == ["key.root_key_identifier", "target_sd", "key.l0"] and ps.text(st[0].tree) == "key":
+        if len(st) == 1 and (lookup_chain(ps.owner.renamed(st[0].target)) or ("", []))[1] == ["key.root_key_identifier", "target_sd", "key.l0"] and ps.text(st[0].tree) == "key":
             return True
         return None
 
